@@ -192,7 +192,7 @@ def main():
         "hooks": {
             "guard": "cargo feature verif-hooks",
             "enable": "cargo build --release --bin packing --features verif-hooks (done by ./check for the CLI-level properties); the library is used unhooked",
-            "baseline_off_cmd": "cd /repo && cargo test --workspace --no-fail-fast --offline",
+            "baseline_off_cmd": "cd /repo && cargo nextest run --workspace --no-fail-fast --offline",
             "source_commits": HOOK_COMMITS,
             "add_only": True,
         },
